@@ -112,7 +112,27 @@ func checkC28(c *Ctx) {
 		checkEqual(c, eq, model)
 	}
 	// --- findAll
-	if fa := anchor(c, pkgXform+".findAll"); fa != nil {
+	// the traversal behind FindAll, by role: the self-recursive function of the
+	// package that FindAll calls and that switches over the node types (a plain
+	// function threading the result list, or a method of a collector)
+	var fa *ssa.Function
+	if top := c.Prog.Func(ModulePath + "/" + pkgXform + ".FindAll"); top != nil && top.Blocks != nil {
+		cands := []*ssa.Function{top}
+		for _, cs := range Calls(top) {
+			if g := Callee(cs.Common()); g != nil && g.Blocks != nil && PkgPathOf(g) == PkgPathOf(top) {
+				cands = append(cands, Origin(g))
+			}
+		}
+		for _, g := range cands {
+			if g.Blocks != nil && len(c.Prog.TypeSwitches(g, "Expr")) == 1 && len(CallsTo(g, g)) > 0 {
+				fa = g
+			}
+		}
+	}
+	if fa == nil {
+		fa = anchor(c, pkgXform+".findAll")
+	}
+	if fa != nil {
 		checkFindAll(c, fa, model)
 	}
 	// --- replaceAll
@@ -632,17 +652,36 @@ func checkFindAll(c *Ctx, fa *ssa.Function, model map[string]*NodeModel) {
 				}
 			}
 		}
+		// which argument is the node searched, which (if any) the list so far
+		exprIdx, listIdx := 0, -1
+		for i, p := range fa.Params {
+			if TypeNameIs(p.Type(), "pkg/expr.Expr") {
+				exprIdx = i
+			} else if _, isSl := p.Type().Underlying().(*types.Slice); isSl {
+				listIdx = i
+			}
+		}
 		var got []string
 		threaded := true
 		for i, call := range seq {
 			a := ""
 			for _, ch := range m.Children() {
-				if accessorCallOn(call.Call.Args[0], e, ch) {
+				if accessorCallOn(call.Call.Args[exprIdx], e, ch) {
 					a = ch
 				}
 			}
 			got = append(got, a)
-			if i > 0 && Unwrap(call.Call.Args[1]) != ssa.Value(seq[i-1]) {
+			switch {
+			case listIdx >= 0:
+				if i > 0 && Unwrap(call.Call.Args[listIdx]) != ssa.Value(seq[i-1]) {
+					threaded = false
+				}
+			case fa.Signature.Recv() != nil:
+				// a collector: every child search goes to the same collector
+				if Unwrap(call.Call.Args[0]) != ssa.Value(fa.Params[0]) {
+					threaded = false
+				}
+			default:
 				threaded = false
 			}
 		}
@@ -663,6 +702,9 @@ func checkFindAll(c *Ctx, fa *ssa.Function, model map[string]*NodeModel) {
 		ret, ok := b.Instrs[len(b.Instrs)-1].(*ssa.Return)
 		if !ok {
 			continue
+		}
+		if len(ret.Results) == 0 {
+			continue // a collector: nothing is handed back
 		}
 		if ph, ok := ret.Results[0].(*ssa.Phi); ok {
 			bad := ""
